@@ -77,8 +77,9 @@ func defText(o *Opt) string {
 
 func init() {
 	fw.Register(&fw.Check{
-		ID:        "C12",
-		Technique: "runtime monitor: 3-way precedence table (CLI > valid env text > default) over value/Called/CalledAs read back from real definitions made with the environment set, followed by real Parse executions",
+		ID:             "C12",
+		ExhaustivePart: "kind(7) x env class(7) x CLI class(4) x default(3) x pointer/Var(2) enumerated completely in both tiers",
+		Technique:      "runtime monitor: 3-way precedence table (CLI > valid env text > default) over value/Called/CalledAs read back from real definitions made with the environment set, followed by real Parse executions",
 		Rule: "quick enumerates kind(7) x env{unset, empty, valid, invalid, mixed-case, equal to default, equal to CLI value}(7) x CLI{absent, --n=v, --n v, flag/bare}(4) x default(3) x pointer/Var(2) completely and adds hostile env/CLI texts; thorough adds more hostile texts, aliases and sibling options. " +
 			"distinct = (kind, env class, cli class, default, texts); non-trivial = the environment variable or the command line actually decides the value. Unasserted (statement silent): Called when the env text is invalid; the value of a bare optional-value option on the CLI while a valid env text is set.",
 		Assumptions: []string{"os.Setenv is called by the single-threaded worker before the definition call (the library reads the variable at definition)"},
